@@ -50,6 +50,8 @@ def _emit(rep, oid, v, fn, clause, replay=None):
 def mk_planner(ex, default):
     """abstract QueryPlanner: databases membership is the uninterpreted predicate INDB on lower-cased names"""
     planner = SymObj(None, 'planner', prov='param')
+    from mindsdb_sql.planner.query_planner import QueryPlanner as _QP
+    planner.self_class = _QP          # members the contract does not describe (an extracted helper method) are the real ones of QueryPlanner
     planner.known_not_none = True
     dbs = SymSeq('planner.databases', lambda e, l: pysym.mk_str(l), prov='param')
     planner.fields['databases'] = dbs
